@@ -2,11 +2,14 @@
 
 Decided at the level of operand kinds and primitive operations (numeric
 results then follow from Rust's semantics of the primitive)."""
+import re
+
 from .lib import hir as H
 from .lib import objtables as T
 from .lib.vmarms import vm_arms, operator_dispatchers
 
 OPTYPE = "optype"     # name of binary_op's operator-class parameter (found by role at run time)
+_F = None
 
 EXPL = ("Table agreement (E2) over match arms, exhaustive over operator classes × variant pairs: (a) the dispatch table "
         "of VM::binary_op / bitwise_op — which (left kind, right kind, operator class) reach a result and which a "
@@ -26,10 +29,19 @@ SHIFTS = [("Shl<&object::Object>>::shl", "<<", "wrapping_shl"), ("Shr<&object::O
 BITS = [("BitAnd>::bitand", "&"), ("BitOr>::bitor", "|"), ("BitXor>::bitxor", "^")]
 
 
-def peval(n, optype, out):
-    """Partial evaluation of an arm body of binary_op under optype == `optype`.
-    Collects outcomes into out: ('ok', [guards]) | ('err', [guards])."""
+def peval(n, optype, out, pair=None):
+    """Partial evaluation of (an arm of, or the whole body of) binary_op / bitwise_op under optype == `optype` and, with `pair`,
+    under (left kind, right kind) == pair: a `match (left, right)` / `if let (..) = (left, right)` takes the arm of that pair.
+    Collects outcomes into out: ('ok', [guards]) | ('err', [guards]).  A result is produced by `self.push(..)`, by a
+    `return` of something that is not an Err, or — when the dispatch yields the result object first and pushes it once
+    afterwards — by a value of the `let` whose local is handed to `self.push`."""
     lets = {}
+    pushed_locals = set()
+    for x_ in H.walk(n):
+        if x_.get("k") == "mcall" and x_["m"] == "push" and H.render(x_["recv"]) == "self":
+            for y_ in H.walk(x_.get("args", [])):
+                if isinstance(y_, dict) and H.local_id(y_) is not None:
+                    pushed_locals.add(H.local_id(y_))
     for x_ in H.walk(n):
         if x_.get("k") == "let" and x_.get("pat", {}).get("k") == "bind" and x_.get("init") is not None:
             lets[x_["pat"]["id"]] = x_["init"]
@@ -70,6 +82,24 @@ def peval(n, optype, out):
             return None
         return None
 
+    def kind_guard(c, binds):
+        """truth of a guard that asks kind predicates (`x.is_arithmetic()`) of operands whose kinds are known, else None"""
+        c = H.strip(c)
+        if c.get("k") == "un" and c.get("op") == "!":
+            v = kind_guard(c["e"], binds)
+            return None if v is None else (not v)
+        if c.get("k") == "bin" and c["op"] in ("&&", "||"):
+            l, r = kind_guard(c["l"], binds), kind_guard(c["r"], binds)
+            if c["op"] == "&&":
+                return False if (l is False or r is False) else (True if (l is True and r is True) else None)
+            return True if (l is True or r is True) else (False if (l is False and r is False) else None)
+        if c.get("k") == "mcall" and not c.get("args") and H.local_id(H.strip(c["recv"])) in binds and _F is not None and (c.get("callee") or "") in _F.fns:
+            from .c06 import predicate_table
+            tab = predicate_table(_F, c["callee"]) or {}
+            d = tab.get(binds[H.local_id(H.strip(c["recv"]))])
+            return True if d == "always" else (False if d == "never" else None)
+        return None
+
     def residual(c):
         """the non-optype part of a condition, as text"""
         c = unlet(c)
@@ -78,8 +108,8 @@ def peval(n, optype, out):
             return " && ".join(p for p in parts if p)
         return H.render(c) if cond_value(c) is None else ""
 
-    def go(n, guards):
-        """returns True if control may continue past n"""
+    def go(n, guards, val=False):
+        """returns True if control may continue past n; val: n's value is the result object (a value leaf is an `ok`)"""
         n0 = n
         if n is None:
             return True
@@ -88,7 +118,16 @@ def peval(n, optype, out):
             for s in n.get("stmts", []):
                 e = s.get("init") if s["k"] == "let" else s.get("e")
                 e1 = H.strip(e) if e is not None else None
-                if e1 is not None and e1.get("k") == "if" and "e" not in e1 and cond_value(e1["c"]) is None:
+                if s["k"] == "let" and s.get("pat", {}).get("k") == "bind" and s["pat"]["id"] in pushed_locals and e is not None and \
+                        H.strip(e).get("k") in ("match", "if", "block") and not H.is_try(H.strip(e)):
+                    # `let result = match .. { .. => value, .. => return Err(..) }; self.push(Rc::new(result), line)`
+                    if not go(H.strip(e), guards, True):
+                        return False
+                    value_locals.add(s["pat"]["id"])
+                    continue
+                is_pair_test = e1 is not None and e1.get("k") == "if" and pair is not None and H.strip(e1["c"]).get("k") == "let" and \
+                    H.strip(H.strip(e1["c"])["init"]).get("k") == "tup"
+                if e1 is not None and e1.get("k") == "if" and "e" not in e1 and cond_value(e1["c"]) is None and not is_pair_test:
                     # `if g { return .. }` — what follows runs under !g
                     g = residual(e1["c"])
                     if not go(e1["t"], guards + [g]):
@@ -97,38 +136,75 @@ def peval(n, optype, out):
                 if e is not None and not go(e, guards):
                     return False
             if n.get("expr") is not None:
-                return go(n["expr"], guards)
+                return go(n["expr"], guards, val)
             return True
+        if k == "if" and pair is not None and H.strip(n["c"]).get("k") == "let" and H.strip(H.strip(n["c"])["init"]).get("k") == "tup":
+            # `if let (Integer(_), Integer(_)) = (&*left, &*right) { .. }`
+            c_ = H.strip(n["c"])
+            hit = T.pair_lookup(T.pair_arms({"arms": [{"pat": c_["pat"], "body": n["t"]}]}), pair[0], pair[1])
+            if hit is not None:
+                return go(n["t"], guards, val)
+            return go(n.get("e"), guards, val) if "e" in n else True
         if k == "if":
             v = cond_value(n["c"])
             if v is True:
-                return go(n["t"], guards)
+                return go(n["t"], guards, val)
             if v is False:
-                return go(n.get("e"), guards) if "e" in n else True
+                return go(n.get("e"), guards, val) if "e" in n else True
             g = residual(n["c"])
-            a = go(n["t"], guards + [g])
-            b = go(n.get("e"), guards + ["!(" + g + ")"]) if "e" in n else True
+            a = go(n["t"], guards + [g], val)
+            b = go(n.get("e"), guards + ["!(" + g + ")"], val) if "e" in n else True
             return a or b
         if k == "match" and not H.is_try(n):
+            if pair is not None and H.strip(n["scrut"]).get("k") == "tup":
+                cont = False
+                for key, a in T.pair_arms(n):
+                    if key == "?":
+                        continue
+                    if key != "*":
+                        sa, sb = key
+                        if not ((pair[0] in sa or "*" in sa) and (pair[1] in sb or "*" in sb)):
+                            continue
+                    if a.get("guard") is None:
+                        return go(a["body"], guards, val) or cont
+                    # a guard over the operands (`(l, r) if l.is_arithmetic() && r.is_arithmetic()`): decided for this pair
+                    # when it only asks kind predicates of the bound operands
+                    binds = {}
+                    pt = a["pat"]
+                    if pt.get("k") == "tuple" and len(pt["pats"]) == 2:
+                        for i_, sp in enumerate(pt["pats"]):
+                            while sp.get("k") in ("ref", "deref"):
+                                sp = sp["pat"]
+                            if sp.get("k") == "bind":
+                                binds[sp["id"]] = pair[i_]
+                    gv = kind_guard(a["guard"], binds)
+                    if gv is True:
+                        return go(a["body"], guards, val) or cont
+                    if gv is False:
+                        continue
+                    g = residual(a["guard"])
+                    cont = go(a["body"], guards + [g], val) or cont
+                    guards = guards + ["!(" + g + ")"]
+                return True
             if H.render(n["scrut"]) == OPTYPE:
                 cont = False
                 for a in n["arms"]:
                     vs = {H.last(v) for v in H.pat_variants(a["pat"])}
                     if optype in vs or "*" in vs or a["pat"].get("k") in ("wild", "bind"):
                         if a.get("guard") is None:
-                            return go(a["body"], guards) or cont
+                            return go(a["body"], guards, val) or cont
                         v = cond_value(a["guard"])
                         if v is True:
-                            return go(a["body"], guards) or cont
+                            return go(a["body"], guards, val) or cont
                         if v is False:
                             continue
                         g = residual(a["guard"])
-                        cont = go(a["body"], guards + [g]) or cont
+                        cont = go(a["body"], guards + [g], val) or cont
                         guards = guards + ["!(" + g + ")"]
                 return True
             cont = False
             for a in n["arms"]:
-                cont = go(a["body"], guards + ["%s is %s" % (H.render(n["scrut"]), H.render_pat(a["pat"]))]) or cont
+                cont = go(a["body"], guards + ["%s is %s" % (H.render(n["scrut"]), H.render_pat(a["pat"]))], val) or cont
             return cont
         if k == "ret":
             e = H.strip(n.get("e")) if n.get("e") else None
@@ -140,10 +216,16 @@ def peval(n, optype, out):
         if H.is_try(n):
             return go(H.untry(n), guards)
         if k == "mcall" and n["m"] == "push" and H.render(n["recv"]) == "self":
+            if any(isinstance(y_, dict) and H.local_id(y_) in value_locals for y_ in H.walk(n.get("args", []))):
+                return True   # the result object was counted where it was produced
             out.append(("ok", list(guards)))
             return True
         if k == "call" and H.last(n.get("ctor", "")) == "Err":
             out.append(("err", list(guards)))
+            return True
+        if val:
+            # a value leaf of the dispatch: the result object
+            out.append(("ok", list(guards)))
             return True
         # other expressions: look inside for pushes (e.g. let bindings)
         for key in ("e", "recv", "args", "init", "l", "r"):
@@ -154,6 +236,7 @@ def peval(n, optype, out):
                 for x in v:
                     go(x, guards)
         return True
+    value_locals = set()
     go(n, [])
 
 
@@ -165,7 +248,8 @@ def run(F, R, tier):
     if not R.anchor("enum object::Object", vs):
         return
     # ---- (a) dispatch table of binary_op ----------------------------------------
-    global OPTYPE
+    global OPTYPE, _F
+    _F = F
     disp = operator_dispatchers(F, R)
     OPTYPE = disp["optype"] or "optype"
     f = F.fn(disp["binary"]) if disp["binary"] else None
@@ -187,15 +271,19 @@ def run(F, R, tier):
             n_cells = 0
             n_err = 0
             cache = {}
+            fbody = H.body_of(f)
             for va in vs:
                 for vb in vs:
                     a = T.pair_lookup(arms, va, vb)
                     for ot in OPTYPES:
                         n_cells += 1
-                        key = (id(a), ot)
+                        # the arms this pair can reach by pattern; a guard may look at the operands, so a guarded arm makes
+                        # the result specific to the pair
+                        cand = [x for k_, x in arms if k_ == "*" or (k_ != "?" and (va in k_[0] or "*" in k_[0]) and (vb in k_[1] or "*" in k_[1]))]
+                        key = (tuple(id(x) for x in cand), ot) + ((va, vb) if any(x.get("guard") is not None for x in cand) else ())
                         if key not in cache:
                             out = []
-                            peval(a["body"], ot, out)
+                            peval(fbody, ot, out, (va, vb))
                             cache[key] = out
                         out = cache[key]
                         kinds = {o for o, _ in out}
@@ -208,12 +296,19 @@ def run(F, R, tier):
                             # the rejecting test must dominate every accepting path: each `ok` outcome carries the
                             # negation of a guard that leads to the error
                             errg = {gs[-1] for o, gs in out if o == "err" and gs}
-                            unguarded = [gs for o, gs in out if o == "ok" and not any(("!(" + g + ")") in gs for g in errg)]
+
+                            def neg(g):
+                                g = g.strip()
+                                if g.startswith("!(") and g.endswith(")"):
+                                    inner = g[2:-1]
+                                    return {inner, "(" + inner + ")", inner[1:-1] if inner.startswith("(") and inner.endswith(")") else inner}
+                                return {"!(" + g + ")", "!((" + g + "))"}
+                            unguarded = [gs for o, gs in out if o == "ok" and not any(neg(g) & set(gs) for g in errg)]
                             if unguarded:
                                 got = "ok+unguarded(a result is produced without passing the test %s: path %s)" % (sorted(errg), unguarded[0])
                             elif "is_zero" in guards:
                                 got = "ok+zero"
-                            elif "< 0" in guards:
+                            elif "< 0" in guards or re.search(r"!\(+\*?\w+ >= 0\)+", guards):
                                 got = "ok+neg"
                             else:
                                 got = "ok+?(%s)" % guards
@@ -240,7 +335,7 @@ def run(F, R, tier):
                 for vb in vs:
                     a = T.pair_lookup(arms, va, vb)
                     out = []
-                    peval(a["body"], "Add", out)
+                    peval(H.body_of(f), "Add", out, (va, vb))
                     kinds = {o for o, _ in out}
                     w = {"ok"} if (va, vb) == ("Integer", "Integer") else {"err"}
                     if kinds != {"err"} or w != {"err"}:
@@ -363,7 +458,15 @@ def run(F, R, tier):
         txt = H.render(arms["Minus"]["body"])
         # every path that negates passed the is_number test; the other side of that test is the runtime error
         outm = []
-        peval(arms["Minus"]["body"], "Add", outm)
+        VMK = ("pop", "push", "top", "peek", "current_frame", "is_number", "is_falsey")
+        # (the arm may hand the work to a helper of its own)
+        mb = arms["Minus"]["body"]
+        for c_ in H.walk(mb):
+            if c_.get("k") == "mcall" and (c_.get("callee") or "").startswith("vm::interpreter::VM::") and H.last(c_["callee"]) not in VMK and F.fn(c_["callee"]) is not None \
+                    and not any(x_.get("k") == "mcall" and x_["m"] in ("push",) for x_ in H.walk(mb)):
+                mb = H.body_of(F.fn(c_["callee"]))
+                break
+        peval(mb, "Add", outm)
         def polarity(g_):
             posv = True
             g_ = g_.strip()
@@ -457,7 +560,7 @@ def run(F, R, tier):
             if e["op"] == "!=":
                 pol = not pol
             through = e.get("callee") in EQS and e["l"].get("ty") in objty and e["r"].get("ty") in objty
-            pops = len([c for c in H.walk(body) if c.get("k") == "mcall" and c["m"] == "pop"])
+            pops = len([c for c in H.walk(H.inline_helpers(F, a["body"], skip=lambda c_: H.last(c_) in ("pop", "push", "top", "peek"))) if c.get("k") == "mcall" and c["m"] == "pop"])
             return (pol, through and pops == 2, "%s%s" % ("" if pol == (e["op"] == "==") else "!", H.render(e)[:90]))
         e, n = cmp_of(arms["Equal"]), cmp_of(arms["NotEqual"])
         # both sides must be `&Object` (or `Object`) values, so that == / != dispatch to Object::eq — comparing the
